@@ -1664,6 +1664,9 @@ class Wtp:
                         continue
                     self.expand_stack.append("ARGVAL-NO-TEMPLATE")
                     t = expand_args(ch, {})
+                    # The default value may contain template and parser
+                    # function calls; expand them like any other page text
+                    t = expand_recurse(t, parent, expand_all)
                     self.expand_stack.pop()
                     parts.append(t)
                     continue
